@@ -261,6 +261,60 @@ pub fn solve_ops(a: &[u64]) -> Vec<u64> {
     encode_ops(&ops.unwrap())
 }
 
+/// [K, no_hdpc, isis...] -> the operation list of the real solver (dense back-end) on the decoder-side system
+/// for the received ISI list: `1 ops...` if it solves, `0` if it reports a singular system
+pub fn dec_ops(a: &[u64]) -> Vec<u64> {
+    use raptorq::{DenseBinaryMatrix, SymbolSlab};
+    let k = a[0] as u32;
+    let isis: Vec<u32> = a[2..].iter().map(|&x| x as u32).collect();
+    let (_, ops) = if a[1] == 0 {
+        let (m, hdpc) = raptorq::generate_constraint_matrix::<DenseBinaryMatrix>(k, &isis);
+        let rows = {
+            use raptorq::BinaryMatrix;
+            m.height()
+        };
+        vh::fused_inverse_mul_symbols(m, hdpc, SymbolSlab::with_zeros(rows, 1), k)
+    } else {
+        let m = vh::generate_constraint_matrix_no_hdpc::<DenseBinaryMatrix>(k, &isis);
+        let rows = {
+            use raptorq::BinaryMatrix;
+            m.height()
+        };
+        vh::fused_inverse_mul_symbols_no_hdpc(m, SymbolSlab::with_zeros(rows, 1), k)
+    };
+    match ops {
+        Some(o) => std::iter::once(1u64).chain(encode_ops(&o)).collect(),
+        None => vec![0],
+    }
+}
+
+/// [K, rows...] -> structure of the encoding constraint matrix (sparse back-end, ISIs 0..K'-1): for each
+/// requested row of the binary matrix the number of ones and their columns in ascending order
+pub fn cm_rows(a: &[u64]) -> Vec<u64> {
+    use raptorq::{BinaryMatrix, Octet, SparseBinaryMatrix};
+    let k = a[0] as u32;
+    let kp = raptorq::extended_source_block_symbols(k);
+    let isis: Vec<u32> = (0..kp).collect();
+    let (m, hdpc) = raptorq::generate_constraint_matrix::<SparseBinaryMatrix>(k, &isis);
+    let p = vh::num_pi_symbols(k) as usize;
+    let fd = m.width() - p;
+    let first_hdpc = vh::num_ldpc_symbols(k) as usize;
+    let mut out = vec![];
+    for &r in &a[1..] {
+        let r = r as usize;
+        if r >= first_hdpc && r < first_hdpc + hdpc.height() {
+            out.push(0);
+            continue;
+        }
+        let mut cols: Vec<u64> = m.get_row_iter(r, 0, fd).filter(|(_, v)| *v != Octet::zero()).map(|(c, _)| c as u64).collect();
+        cols.extend(m.query_non_zero_columns(r, fd).iter().map(|&c| c as u64));
+        cols.sort_unstable();
+        out.push(cols.len() as u64);
+        out.extend(cols);
+    }
+    out
+}
+
 pub fn encode_ops(ops: &[vh::SymbolOps]) -> Vec<u64> {
     let mut out = vec![];
     for op in ops {
